@@ -250,7 +250,7 @@ def observe_hist(case):
 
 # ---------------------------------------------------------------------------------------------------------------
 # edited custom registry (NamesEdit.tla)
-EDIT_PROBES = ["pc", "parsec", "kpc", "kiloparsec", "Kiloparsec", "Mpc", "ft", "foot", "kft", "foo", "kfoo", "Mfoo"]
+EDIT_PROBES = ["pc", "parsec", "kpc", "kiloparsec", "Kiloparsec", "Mpc", "ft", "foot", "kft", "foo", "kfoo", "Mfoo", "quux"]
 EDIT_DERIVED = ["kpc", "Mpc", "kft", "kfoo", "Mfoo"]
 
 
@@ -311,13 +311,88 @@ def _edit_ns(reg):
     return True, "", out
 
 
-def observe_edit(case):
-    """case = {"h": [{op, k, m, pfx, p}, ...]} on one fresh UnitRegistry; at the end every probe string is resolved from
-    the same state (table, memo restored after each) and a fresh namespace is built."""
+def _edit_top():
+    """the unyt top-level namespace as the 'namespace' of the default registry"""
+    out = []
+    d = vars(_U["unyt"])
+    for p in EDIT_PROBES:
+        v = d.get(p)
+        if isinstance(v, _U["Unit"]):
+            o = _edit_unit(lambda: v)
+            out.append({"present": True, "ok": o["ok"], "den": o["den"]})
+        else:
+            out.append({"present": False, "ok": False, "den": []})
+    return out
+
+
+def _edit_prime():
+    """Once per worker process: resolve every probe string in two throw-away registries with OPPOSITE contents (A: pc, ft,
+    foo all prefixable - every prefixed probe resolves; B: pc not prefixable, foo absent - every prefixed probe is
+    refused).  A process-wide memo of successful or failed prefix splits (state that leaks from one registry into
+    another) is thereby primed both ways before the first history, whatever the partition of cases over workers."""
     U = _U
+    if U.get("edit_primed"):
+        return
+    U["edit_primed"] = True
     from unyt import dimensions
 
-    reg = U["UnitRegistry"]()
+    ra = U["UnitRegistry"]()
+    ra.remove("ft")
+    ra.add("ft", 2.0, dimensions.length, prefixable=True)
+    ra.add("foo", 2.0, dimensions.length, prefixable=True)
+    rb = U["UnitRegistry"]()
+    rb.remove("pc")
+    rb.add("pc", 2.0, dimensions.length, prefixable=False)
+    for reg in (ra, rb, ra):
+        for s in EDIT_PROBES:
+            try:
+                U["Unit"](s, registry=reg)
+            except Exception:  # noqa: BLE001
+                pass
+            try:
+                s in reg
+            except Exception:  # noqa: BLE001
+                pass
+
+
+def observe_edit(case):
+    """case = {"kind": "custom"|"default", "h": [{op, k, m, pfx, p}, ...]} on one fresh UnitRegistry (custom) or on unyt's
+    default registry (restored afterwards together with the unyt namespace: workers are reused); at the end every probe
+    string is resolved from the same state (table, memo restored after each) and a fresh add_symbols namespace is built
+    (custom) / the unyt top-level namespace is read (default)."""
+    U = _U
+    _edit_prime()
+    kind = case.get("kind", "custom")
+    if kind == "custom":
+        return _observe_edit(case, U["UnitRegistry"](), None)
+    from unyt.unit_registry import default_unit_registry as dreg
+
+    snap = (dict(dreg.lut), dict(dreg._unit_object_cache), dreg._unit_system_id, dict(vars(U["unyt"])))
+    try:
+        return _observe_edit(case, dreg, "default")
+    finally:
+        dreg.lut.clear()
+        dreg.lut.update(snap[0])
+        dreg._unit_object_cache.clear()
+        dreg._unit_object_cache.update(snap[1])
+        dreg._unit_system_id = snap[2]
+        d = vars(U["unyt"])
+        for k in list(d):
+            if k not in snap[3]:
+                del d[k]
+        for k, v in snap[3].items():
+            if d.get(k) is not v:
+                d[k] = v
+
+
+def _observe_edit(case, reg, default):
+    U = _U
+    from unyt import dimensions
+    from unyt.unit_object import define_unit
+
+    def mkunit(s):
+        return U["Unit"](s) if default else U["Unit"](s, registry=reg)
+
     ev = []
     for e in case["h"]:
         rec = dict(e)
@@ -334,9 +409,12 @@ def observe_edit(case):
             elif op == "modify":
                 reg.modify(e["k"], float(e["m"]))
                 obs = {"k": "ok", "ok": True, "den": []}
+            elif op == "define":
+                define_unit(e["k"], (float(e["m"]), "m"), prefixable=bool(e["pfx"]), registry=reg)
+                obs = {"k": "ok", "ok": True, "den": []}
             elif op == "unit":
                 s = EDIT_PROBES[e["p"] - 1]
-                o = _edit_unit(lambda: U["Unit"](s, registry=reg))
+                o = _edit_unit(lambda: mkunit(s))
                 obs = {"k": "unit" if o["ok"] else "raise", "ok": o["ok"], "den": o["den"], "exc": o["exc"]}
             elif op == "addsymbols":
                 ok, exc, nsobs = _edit_ns(reg)
@@ -361,11 +439,14 @@ def observe_edit(case):
 
     final = {"rows": _edit_rows(reg), "probes": []}
     for s in EDIT_PROBES:
-        o = _edit_unit(lambda: U["Unit"](s, registry=reg))
+        o = _edit_unit(lambda: mkunit(s))
         final["probes"].append({"ok": o["ok"], "den": o["den"], "exc": o["exc"]})
         restore()
-    ok, exc, nsobs = _edit_ns(reg)
+    if default:
+        ok, exc, nsobs = True, "", _edit_top()
+    else:
+        ok, exc, nsobs = _edit_ns(reg)
     final["nsok"] = ok
     final["nsexc"] = exc
     final["ns"] = nsobs
-    return {"ev": ev, "final": final}
+    return {"kind": "default" if default else "custom", "ev": ev, "final": final}
